@@ -308,8 +308,9 @@ func init() {
 			"predicates are pure functions of the element's file position and content and never retain their argument",
 			"the expected sequence comes from the PBF model (validated against the unfiltered scan by C01)",
 		},
-		Cases:           c08Cases,
-		Exec:            c08Exec,
-		RaceIsViolation: true,
+		Cases:            c08Cases,
+		Exec:             c08Exec,
+		CrashIsViolation: true,
+		RaceIsViolation:  true,
 	})
 }
